@@ -25,10 +25,17 @@ def obj_roots(p, obj, depth=0):
     for k, v in p.state.mem.items():
         if isinstance(k, tuple) and k and k[0] in ("fld", "idx"):
             b = k
+            hit = False
             while b[0] in ("fld", "idx"):
                 b = b[1]
-            if b == obj or (src is not None and b == src):
+                # the object may itself be a sub-object (an element slot of a tuple holding a struct argument)
+                if b == obj or (src is not None and b == src):
+                    hit = True
+                    break
+            if hit:
                 out |= roots_of(v)
+    if src is not None and depth < 3:
+        out |= obj_roots(p, src, depth + 1)
     return out
 
 
@@ -198,7 +205,7 @@ def check_invoke(rep, db, f, inst):
         conds = q.conds_before(p, i)
         for k, (a, pn) in enumerate(zip(args, pack)):
             rs = roots_of(a)
-            if isinstance(a, tuple) and a and a[0] in ("tmp", "var"):
+            if isinstance(a, tuple) and a and (a[0] in ("tmp", "var") or (a[0] == "fld" and str(a[2]).startswith("$t"))):
                 rs |= obj_roots(p, a)
                 v = p.state.mem.get(a)
                 if v is not None:
